@@ -66,3 +66,11 @@ MUTANTS += [
        "        adjustments = [Adjustment(name, def_val) for name, def_val in davs if \"adj\" in name]")],
      "R20.7 AdjustmentCollection._initialized_adjustments"),
 ]
+
+MUTANTS += [
+    ("from-xml-shared-memo", "from_xml answers from a module-level memo keyed by the token",
+     [("src/pptx/enum/base.py", "        member = (\n            next((member for member in cls if member.xml_value == xml_value), None)\n            if xml_value\n            else None\n        )\n",
+       "        member = _MEMO.get(xml_value) if xml_value else None\n        if member is None and xml_value:\n            member = next((member for member in cls if member.xml_value == xml_value), None)\n            if member is not None:\n                _MEMO[xml_value] = member\n"),
+      ("src/pptx/enum/base.py", "class BaseEnum(", "_MEMO: dict = {}\n\n\nclass BaseEnum(")],
+     "R20.1m BaseXmlEnum.from_xml"),
+]
